@@ -43,10 +43,10 @@ impl Property for C15 {
         "fault_enumeration"
     }
     fn rule(&self) -> String {
-        "A case = one or two reliable channels per direction, tick lengths shorter / equal / longer than resend_time and irregular (resend_time +-1 ms, 2999/3000/3500 ms around the 3 s sent-packet horizon), flushes without an update in between, acks lost, duplicated, delayed up to 4 s. The transmission log (message id / slice index -> sender-clock times) is read from decoded packets. Oracles: two transmissions of one unit are >= resend_time apart; with an unbounded budget every unit that is unacknowledged (hook) and was never sent or last sent >= resend_time ago is in the flush; after the sender processed an ack packet covering a packet that carried the unit and was sent < 3 s (sender clock) earlier, the unit never appears again. Non-trivial: >= 1 tick shorter than the channel's resend_time while a message was unacknowledged and >= 1 ack packet lost or delayed, with a sliced message in play. Distinct = hash of the decoded operation trace.".into()
+        "A case = one or two reliable channels per direction, tick lengths shorter / equal / longer than resend_time and irregular (resend_time +-1 ms, 2999/3000/3500 ms around the 3 s sent-packet horizon), flushes without an update in between, acks lost, duplicated, delayed up to 4 s. The transmission log (message id / slice index -> sender-clock times) is read from decoded packets. Oracles: two transmissions of one unit are >= resend_time apart; every unit that is unacknowledged (hook), was never sent or last sent >= resend_time ago and still fits into the budget the flush left unused (budgets 20 MB, 60 kB, 3 kB per tick) is in the flush; after the sender processed an ack packet covering a packet that carried the unit and was sent < 3 s (sender clock) earlier, the unit never appears again. Non-trivial: >= 1 tick shorter than the channel's resend_time while a message was unacknowledged and >= 1 ack packet lost or delayed, with a sliced message in play. Distinct = hash of the decoded operation trace.".into()
     }
     fn assumptions(&self) -> Vec<String> {
-        vec!["'budget allows' is taken as an effectively unbounded budget (20 MB per tick) for the promptness clause; smaller budgets are covered by C14's rule".into()]
+        vec!["'budget allows' is judged against the budget left when the flush ended (a unit that fits into it fitted at every point of the flush); the per-channel priority rule is C14's".into()]
     }
     fn pbt(&self, tier: Tier) -> PbtCfg {
         PbtCfg { cases: tier.pick(120_000, 2_000_000), max_len: tier.pick(1500, 5000), shrink_ms: 120_000 }
